@@ -27,14 +27,10 @@ from .. import common as C
 from .. import corecheck as K
 from .. import proj as P
 
-# known counterexample classes: printed as KNOWN-FINDING when the id is recorded in known_findings.json,
-# a violation otherwise
-KNOWN = [
-    {"id": "C07/pasted-enum-order", "class": "userEnums-order",
-     "meaning": "document and inlined document are both accepted, the two JSON catalogs are equal as JSON values and differ "
-                "only in the ORDER of the members of \"userEnums\": an ENUM brought by a PASTE is registered during the "
-                "expansion, before the document's own ENUMs (collectRules runs after processPaste)"},
-]
+# known counterexample classes: none.  (The order of "userEnums" once differed between a document and its inlined
+# version - enums brought by a PASTE were registered during the expansion; fixed in the repository: enum rules are now
+# collected after the expansion, over the expanded forest.)  Document and inlined document must give byte-identical JSON.
+KNOWN = []
 
 
 def order_differences(a, b, path=""):
@@ -820,12 +816,9 @@ def run(res, tier, seed, replay):
         else:
             full["both rejected"] += 1
     # different catalogs: look at the JSON texts
-    known_ids = {f["id"] for f in C.load_known()["findings"] if f["property"] == "C07"}
     if differing:
         oj = run_impl([P.run_line("-", projects[k]) for (k, _, _) in differing] +
                       [P.run_line("-", [("a.jst", render(inl)[0])]) for (_, _, inl) in differing])
-        n_known = 0
-        first_known = None
         for j, (k, mac, inl) in enumerate(differing):
             items = docs_items[k]
             ja = C.unhx(P.parse(oj[j])[1]["json"]).decode("utf-8", "replace")
@@ -835,24 +828,8 @@ def run(res, tier, seed, replay):
                 od = order_differences(json.loads(ja), json.loads(jb))
             except ValueError:
                 od = None
-            pasted_enum = any(it[0] == "d" and it[1] == 20 for body in mac.body.values() for it in body)
-            if od is not None and od and all(p == "/userEnums" for p in od) and pasted_enum:
-                n_known += 1
-                full["both accepted, userEnums in another order"] = full.get("both accepted, userEnums in another order", 0) + 1
-                if first_known is None:
-                    first_known = (items, extra)
-                continue
             bad("the document with macros and the inlined document are both accepted with different catalogs%s" % (
                 "" if od is None else " (equal as JSON values; member order differs under %r)" % sorted(set(od))), items, extra)
-        if n_known:
-            kid = KNOWN[0]["id"]
-            msg = "class=%s documents=%d first=%r" % (KNOWN[0]["class"], n_known, txt(first_known[0])[:200])
-            if kid in known_ids:
-                res.known.append("id=%s %s" % (kid, msg))
-            else:
-                bad("the document with macros and the inlined document are both accepted, the catalogs list \"userEnums\" in a "
-                    "different order (an ENUM brought by a PASTE comes before the document's own ENUMs); %d documents" % n_known,
-                    first_known[0], first_known[1])
     res.notes["full_pipeline"] = full
     if converse_expand:
         res.notes["rejected_in_expansion_with_macros_expanded_inlined"] = [
